@@ -64,8 +64,17 @@ def run(ctx, libs, cases, shards=8):
     return identlib.run_cases(ctx, libs, cases, shards=shards, module=WORKER)[None]
 
 
-def model_outputs(ctx, records):
-    return identlib.model_outputs(ctx, records, driver=DRIVER)
+def model_outputs(ctx, records, chunks=8):
+    """the driver keeps no state across cases (every case re-sends library and graph): run the chunks in parallel"""
+    from concurrent.futures import ThreadPoolExecutor
+    n = len(records)
+    if n < 64:
+        return identlib.model_outputs(ctx, records, driver=DRIVER)
+    size = (n + chunks - 1) // chunks
+    parts = [records[i:i + size] for i in range(0, n, size)]
+    with ThreadPoolExecutor(max_workers=chunks) as ex:
+        outs = list(ex.map(lambda part: identlib.model_outputs(ctx, part, driver=DRIVER), parts))
+    return [o for part in outs for o in part]
 
 
 def norm(x):
@@ -138,7 +147,10 @@ def make_cases(ctx, rng, kind, nlibs, per, tag):
         lib = gen_lib(rng, f"{tag}_{ctx.seed}_{li}")
         libs.append(lib)
         for _ in range(per):
-            g = gen_graph(rng, lib, max_nodes=rng.choice([2, 4, 6, 9, 12]))
+            for _ in range(4):   # single-node graphs are kept with probability 1/4 only
+                g = gen_graph(rng, lib, max_nodes=rng.choice([2, 4, 6, 9, 12]))
+                if len(g["nodes"]) > 1 or rng.random() < 0.25:
+                    break
             c = {"lib": li, "kind": kind, "graph": g, "root_is_task": kind_of(lib, g["nodes"][0]["cls"]) == "task"}
             if kind == "c12":
                 c["value"] = gen_value(rng, g) if rng.random() < 0.5 else None
